@@ -1,6 +1,7 @@
 //! verif-net — pocketscion's control plane and data plane under a simulator-owned link layer, against an
 //! independent reference router (C13, C01, C11).
 
+mod c14;
 mod refrouter;
 mod topo;
 
@@ -125,7 +126,7 @@ fn real_step(w: &mut World, at: usize, ing: u16, now: u32, b: &mut [u8]) -> Resu
 
 /// Walk a packet AS by AS.  `which` = true: the real routers; false: the reference routers.  Both walks apply the
 /// same fault plan at the same step indices.
-fn walk(w: &mut World, which_real: bool, pkt: &[u8], start: usize, start_ing: u16, now0: u32, plan: &[Fault], max_steps: usize) -> WalkOut {
+pub fn walk(w: &mut World, which_real: bool, pkt: &[u8], start: usize, start_ing: u16, now0: u32, plan: &[Fault], max_steps: usize) -> WalkOut {
     let mut b = pkt.to_vec();
     let mut at = start;
     let mut ing = start_ing;
@@ -251,7 +252,7 @@ fn reply_packet(delivered: &[u8]) -> Result<Vec<u8>, String> {
     pkt.try_encode_to_owned_view().map(|v| v.as_slice().to_vec()).map_err(|e| format!("{e:?}"))
 }
 
-fn shape(p: &ScionPath) -> String {
+pub fn shape(p: &ScionPath) -> String {
     let b = match packet_for(p, b"") {
         Some(b) => b,
         None => return "unencodable".into(),
@@ -270,7 +271,7 @@ fn shape(p: &ScionPath) -> String {
 }
 
 /// Paths the SDK offers between two ASes: registry → lister plan → segments (real MAC chaining, signing) → combinator.
-fn offered(w: &World, reg: &SegmentRegistry, src: usize, dst: usize, ts: u32, seg_id: u16, exp: u8, stock: bool) -> Result<Vec<ScionPath>, String> {
+pub fn offered(w: &World, reg: &SegmentRegistry, src: usize, dst: usize, ts: u32, seg_id: u16, exp: u8, stock: bool) -> Result<Vec<ScionPath>, String> {
     let (s, d) = (w.m.isd_asn(src), w.m.isd_asn(dst));
     let when = chrono::DateTime::<chrono::Utc>::from_timestamp(ts as i64, 0).ok_or("timestamp")?;
     if stock {
@@ -322,6 +323,7 @@ pub fn classify(clause: &str, detail: &str, _trace: &[String]) -> Option<&'stati
                 None
             }
         }
+        "C14/bad-checksum" => Some("C14/checksum-covers-only-the-pseudo-header"),
         "C11/failure-changes-path-bytes" => Some("C11/refused-packet-leaves-with-changed-path-bytes"),
         "C13/simulator-error" if detail.contains("one-hop packet") && detail.contains("no link for") => Some("C13/one-hop-checks-skipped"),
         "C01/offered-path-not-forwardable-by-the-sdk-router" => {
@@ -537,6 +539,9 @@ fn run_c11(ctx: &mut RunCtx) -> RunResult {
 fn run_net(prop: &str, ctx: &mut RunCtx) -> RunResult {
     if prop == "C11" {
         return run_c11(ctx);
+    }
+    if prop == "C14" {
+        return c14::run_c14(ctx);
     }
     let mut w = topo::draw(ctx);
     for a in 0..w.m.ases.len() {
@@ -973,7 +978,7 @@ impl Engine for NetEngine {
         "verif-net"
     }
     fn properties(&self) -> &'static [&'static str] {
-        &["C13", "C01", "C11"]
+        &["C13", "C01", "C11", "C14"]
     }
     fn run(&self, prop: &str, ctx: &mut RunCtx) -> RunResult {
         run_net(prop, ctx)
@@ -1011,6 +1016,7 @@ impl Engine for NetEngine {
     }
     fn required_reach(&self, prop: &str) -> Vec<&'static str> {
         match prop {
+            "C14" => vec!["scmp-error-observed", "quote-checked", "quote-truncated", "echo-round-trip", "echo-reply-checked", "error-for-refused-packet", "link-down", "path-expired", "host-replied"],
             "C11" => vec!["authentic-path-verified", "reverse-path-verified", "tamper-authenticated-field", "tamper-detected-in-time", "refusal-checked-for-atomicity", "replayed-at-earlier-as"],
             "C13" => vec!["shortcut-path", "peering-path", "three-segment-path", "attacker-recombination", "attack-accepted-by-reference", "attack-refused-by-reference", "bit-flip", "delay-across-expiry", "link-down-in-flight", "misdelivery", "one-hop-packet", "one-hop-delivered"],
             _ => vec!["pair-with-paths", "shortcut-path", "peering-path", "three-segment-path", "reverse-walked"],
